@@ -342,16 +342,23 @@ def checks_for(c, r):
             for x, y in zip(pts, r["fwd"][kk]):
                 out.append(f"vcloser tol (qwarp_points{D} {ac} {comps} {qc_vec(x)}) {qc_vec(y)}")
         if "disp_resized" in r:
+            # disp(grid) on a same-domain grid of another size: the buffer resampled at that grid's lattice (zero padding)
+            g2 = qgrid(r["resized_grid"])
             m = c["resize_to"]
+            for idx in [[0] * D, [v - 1 for v in m], [v // 2 for v in m]]:
+                lat = f"(qlattice {D} {ac} {g2} {qc_vec([float(v) for v in idx])})"
+                for d in range(D):
+                    val = at(r["disp_resized"][0][d], idx)
+                    if D == 2:
+                        out.append(f"match {lat} with [x; y] => qcloser tol (qgrid_sample2 PZeros {ac} {nested(r['u'][0][d])} x y) {qc(val)} | _ => false end")
+                    else:
+                        out.append(f"match {lat} with [x; y; z] => qcloser tol (qgrid_sample3 PZeros {ac} {nested(r['u'][0][d])} x y z) {qc(val)} | _ => false end")
+            # transform(lattice, grid=True): the buffer RESIZED (F.interpolate) and added
             ms = " ".join(f"{v}%Z" for v in m)
-            for d in range(D):
-                if D == 2:
-                    out.append(f"mcloser tol (qresize2 {ac} {ms} {nested(r['u'][0][d])}) {qc_mat(r['disp_resized'][0][d])}")
-                else:
-                    out.append(f"ball (map (fun p => mcloser tol (fst p) (snd p)) (combine (qresize3 {ac} {ms} {nested(r['u'][0][d])}) {nested(r['disp_resized'][0][d])}))")
-            # resizing == interpolating at the lattice (same domain)
-            flat_a = str(r["fwd_grid"])
-            out.append(cb(max_abs_diff(r["fwd_grid"], r["fwd_points_at_lattice"]) < 1e-5))
+            if D == 2:
+                for d in range(D):
+                    ref = [[r["fwd_grid"][0][jy][jx][d] - r["lattice"][jy][jx][d] for jx in range(m[0])] for jy in range(m[1])]
+                    out.append(f"mcloser tol (qresize2 {ac} {ms} {nested(r['u'][0][d])}) {qc_mat(ref)}")
         return out
     if k == "warp":
         ac = cb(r["grid"]["ac"])
@@ -449,14 +456,20 @@ def search(ctx, broken, corr_failures):
 
 
 def explains(broken_item, found):
-    keys = " ".join(v.key for v in found).lower()
-    b = broken_item.lower()
-    table = [(("fresh", "default", "reset_parameters"), ("default-not-identity", "fresh")),
+    """a concrete failing input explains a broken obligation only if it is a NEW violation (not a recorded known finding)
+    about the same mechanism"""
+    import re
+    known, _ = vlib.load_findings()
+    keys = " ".join(v.key for v in found if v.key not in known).lower()
+    if not keys:
+        return False
+    b = re.sub(r"\(deepali/[^)]*\)", "", broken_item.lower())
+    table = [(("fresh", "default", "reset_parameters", "transcendental node"), ("default-not-identity", "fresh")),
              (("multilevel", "ml_", "ml2"), ("multilevel",)),
-             (("sequential", "seq"), ("sequential",)),
-             (("warp", "imagetransformer", "pullback", "sample.py", "transformer.py"), ("imagetransformer",)),
-             (("disp", "affine_flow", "flow.py"), (".disp",)),
-             (("points", "pointset"), (".points", "pointsettransformer", "tensor:differs"))]
+             (("sequential", "seq2", "seq_"), ("sequential",)),
+             (("warp", "imagetransformer", "pullback", "sampling coordinates"), ("imagetransformer",)),
+             (("disp", "affine_flow"), (".disp",)),
+             (("points", "pointset", "forward"), (".points", "pointsettransformer", "tensor:differs", "forward"))]
     for words, ks in table:
         if any(w in b for w in words):
             return any(k in keys for k in ks)
